@@ -85,8 +85,8 @@ Definition c17_run (op : Z) (args : list sx) : sx :=
   | 4%Z, [data] =>
       match dnums17 data with
       | Some data =>
-          soutcome (fun mv => SL [nenc ops (fst mv); nenc ops (snd mv)])
-                   (obind (mean ops data) (fun m => omap (fun v => (m, v)) (variance ops data)))
+          soutcome (fun g => SL [nenc ops (g_mean g); nenc ops (g_variance g)])
+                   (approximating ops data)
       | None => bad_case
       end
   | _, _ => bad_case
